@@ -59,6 +59,10 @@ def gen_lines(rng, n_top: int):
             body = rng.choice(['; c%d' % len(lines), ';x', ';', '; a ; b'])
             lines.append({'t': 'comment', 'ind': ind, 'text': ind_i + body})
 
+    def amount():
+        # compound number expressions too (the read-only sweep does non-in-place arithmetic on them); no rng draw
+        return ['1', '12.50 + 7.25', '1', '2 * 3', '1', '5 - 1 - 1'][len(lines) % 6]
+
     def body(kind):
         # indented lines after a directive that accepts metadata (and postings for a transaction)
         n = rng.choice([0, 0, 1, 2, 3, 4])
@@ -68,7 +72,7 @@ def gen_lines(rng, n_top: int):
             # a comment between the last meta item and the first posting (the postings' placeholder sits there)
             lines.append({'t': 'model', 'ind': True, 'level': 1, 'text': '  k%sx: 1' % rng.choice('abc')})
             comment(True)
-            lines.append({'t': 'model', 'ind': True, 'level': 1, 'text': '  Assets:A%d 1 USD' % rng.randrange(3)})
+            lines.append({'t': 'model', 'ind': True, 'level': 1, 'text': '  Assets:A%d %s USD' % (rng.randrange(3), amount())})
             stage = 1
             in_posting = True
         for _ in range(n):
@@ -81,7 +85,7 @@ def gen_lines(rng, n_top: int):
                 stage = 1
                 in_posting = True
                 lines.append({'t': 'model', 'ind': True, 'level': 1,
-                              'text': rng.choice(['  ', '    ']) + 'Assets:A%d 1 USD' % rng.randrange(3)})
+                              'text': rng.choice(['  ', '    ']) + 'Assets:A%d %s USD' % (rng.randrange(3), amount())})
             elif in_posting:
                 lines.append({'t': 'model', 'ind': True, 'level': 2, 'text': '      m%sy: 2' % rng.choice('abc')})
             else:
@@ -1019,6 +1023,22 @@ def readonly_sweep(doc: Doc, rng, budget: int = 400):
             pass
         if visible(doc) != snap0:
             return f'deepcopy/==/print of {path} changed the visible tokens'
+    # non-in-place arithmetic with number expressions of the document as operands (either side, reflected forms,
+    # unary): computes a NEW expression; the operands' document must not move
+    import decimal
+    from autobean_refactor import models as models_
+    exprs = [(path, m) for path, m in allm if isinstance(m, models_.NumberExpr)]
+    for path, m in rng.sample(exprs, min(4, len(exprs))):
+        other = rng.choice(exprs)[1]
+        for f_ in (lambda: m + other, lambda: other - m, lambda: m * other, lambda: other / m, lambda: 2 * m,
+                   lambda: 100 - m, lambda: decimal.Decimal('1.5') * m, lambda: m / 4, lambda: -m, lambda: +m,
+                   lambda: (m + 1) * other):
+            try:
+                f_()
+            except (ArithmeticError, ValueError, TypeError):
+                pass
+        if visible(doc) != snap0:
+            return f'non-in-place arithmetic with {path} as an operand changed the visible tokens of its document'
     if print_text(doc.file) != text0:
         return 'read-only calls changed the printed text'
     if doc.full() != strict0:
@@ -1562,6 +1582,42 @@ def run(ctx: common.Ctx):
     ctx.assumptions += ASSUME
     ctx.require_coq(['properties/C14'], extra_targets=['CommentsRun'])
     run_all(ctx, 'C14', 330, 4000)
+    probe_appended_entry(ctx)
+
+
+SIG_APPENDED = 'C14:unclaim-claim:appended-entry-behind-last-token'   # known finding
+
+
+def probe_appended_entry(ctx: common.Ctx):
+    """Directed (found by the proof of C14_claim_accepted: the claim is accepted iff the comments lie in the field's
+    range): a comment APPENDED as an entry of an empty trailing repeated field (no dedent mark follows, unlike every
+    parsed layout) lies behind the model's last token once it is un-claimed, i.e. outside the claimer's range, so
+    unclaim followed by claim of the same comments raises 'not found'. Recorded finding for exactly this shape; the
+    same calls on layouts with items / a dedent mark must restore the attribution."""
+    from autobean_refactor import parser as parser_lib, models
+    parser = parser_lib.Parser()
+    shapes = [('2000-01-01 open Assets:A\n', 'raw_meta_with_comments', '  ', True),
+              ('2000-01-01 *\n', 'raw_postings_with_comments', '  ', True),
+              ('2000-01-01 open Assets:A\n  kk: 1\n', 'raw_meta_with_comments', '  ', False),
+              ('2000-01-01 *\n  Assets:A  1 USD\n', 'raw_postings_with_comments', '  ', False)]
+    for text, field, ind, known in shapes:
+        f = parser.parse(text, models.File)
+        w = getattr(f.raw_directives[0], field)
+        w.append(models.BlockComment.from_value('c', indent=ind))
+        before = [(type(x).__name__, getattr(x, 'raw_text', None)) for x in w]
+        ctx.count('appended_entry_probes')
+        u = w.unclaim_interleaving_comments()
+        try:
+            w.claim_interleaving_comments(u)
+        except ValueError as e:
+            ctx.monitor_failure(SIG_APPENDED if known else 'C14:unclaim-claim',
+                                f'{text!r}: {field}.append(comment); unclaim_interleaving_comments(); claim_interleaving_comments(the '
+                                f'same) raised {e}', {'text': text, 'field': field})
+            continue
+        after = [(type(x).__name__, getattr(x, 'raw_text', None)) for x in w]
+        if after != before:
+            ctx.monitor_failure('C14:unclaim-claim', f'{text!r}: unclaim + claim of an appended entry of {field} gives {after}, was {before}',
+                                {'text': text, 'field': field})
 
 
 def search(ctx: common.Ctx):
